@@ -85,6 +85,13 @@ func (m kvModel) canon() string {
 	}
 	return b.String()
 }
+func (m kvModel) clone() kvModel {
+	c := kvModel{}
+	for k, v := range m {
+		c[k] = v
+	}
+	return c
+}
 func (m kvModel) values() []string {
 	out := []string{}
 	for _, v := range m {
@@ -149,6 +156,25 @@ func (s *topicsSys) observe() *vk.Violation {
 }
 
 func (s *topicsSys) Apply(i int) *vk.Violation {
+	// a dump taken before the operation must still rebuild the state it was taken in after the operation and a later dump
+	pre, perr := s.st.Dump()
+	preModel := s.model.clone()
+	if v := s.apply(i); v != nil {
+		return v
+	}
+	if _, err := s.st.Dump(); err == nil && perr == nil {
+		n := topics.NewTree()
+		if err := n.Load(pre); err != nil {
+			return &vk.Violation{Sig: "topics-earlier-dump-unloadable", Msg: fmt.Sprintf("a dump taken before %s no longer loads after it and a later dump: %v", s.ops[i], err)}
+		}
+		if v := (&topicsSys{st: n, model: preModel, keys: s.keys, ops: s.ops}).observe(); v != nil {
+			return &vk.Violation{Sig: "topics-earlier-dump-changed", Msg: fmt.Sprintf("a dump taken before %s, loaded after it and a later dump, does not rebuild the state it was taken in: %s", s.ops[i], v.Msg)}
+		}
+	}
+	return nil
+}
+
+func (s *topicsSys) apply(i int) *vk.Violation {
 	o := s.ops[i]
 	switch o.kind {
 	case "ins":
@@ -233,6 +259,24 @@ func (s *subsSys) observe() *vk.Violation {
 	return nil
 }
 func (s *subsSys) Apply(i int) *vk.Violation {
+	pre, perr := s.st.Dump()
+	preModel := s.model.clone()
+	if v := s.apply(i); v != nil {
+		return v
+	}
+	if _, err := s.st.Dump(); err == nil && perr == nil {
+		n := subscriptions.NewTree()
+		if err := n.Load(pre); err != nil {
+			return &vk.Violation{Sig: "subs-earlier-dump-unloadable", Msg: fmt.Sprintf("a dump taken before %s no longer loads after it and a later dump: %v", s.ops[i], err)}
+		}
+		if v := (&subsSys{st: n, model: preModel, keys: s.keys, ops: s.ops}).observe(); v != nil {
+			return &vk.Violation{Sig: "subs-earlier-dump-changed", Msg: fmt.Sprintf("a dump taken before %s, loaded after it and a later dump, does not rebuild the state it was taken in: %s", s.ops[i], v.Msg)}
+		}
+	}
+	return nil
+}
+
+func (s *subsSys) apply(i int) *vk.Violation {
 	o := s.ops[i]
 	switch o.kind {
 	case "ups":
